@@ -26,28 +26,33 @@ structure PayAddrMsg where
   acc : AccId
   deriving Repr, Inhabited
 
-def didUpdatePaymentAddress (s : State) (m : PayAddrMsg) : TxM State := do
-  if !m.didOk then throw "invalid did"
-  if !m.acc.ok then throw "invalid account id"
-  let d := s.did
-  match Map.find? d.paymentAddress m.did with
-  | some old =>
-    if m.did.isKey then throw "cannot change payment address of a key did"
-    if old = m.acc.addr then throw "same payment address"
-  | none => pure ()
-  if !(d.creatorBound m.creator m.did) ∧ !m.did.isKey then throw "invalid creator"
-  if m.acc.cosmos ∧ m.acc.chainOk then
-    if m.did.isSid then
-      let some stored := d.getDid m.acc.raw | throw "binding not found"
-      if m.did ≠ stored.did then throw "inconsistent did"
-      pure { s with did := { d with paymentAddress := Map.set d.paymentAddress stored.did m.acc.addr } }
-    else if m.did.isKey then
-      if m.acc.addr ≠ m.creator then throw "invalid account id"
-      if (Map.find? d.kid m.acc.addr).isSome then throw "kid exists"
-      pure { s with did := { d with paymentAddress := Map.set d.paymentAddress m.did m.acc.addr,
-                                    kid := Map.set d.kid m.acc.addr m.did } }
-    else throw "unsupported did"
-  else throw "invalid chain address"
+/-- the first check of `UpdatePaymentAddress` that fails, if any -/
+def payAddrPre (d : DidState) (m : PayAddrMsg) : Option String :=
+  if !m.didOk then some "invalid did"
+  else if !m.acc.ok then some "invalid account id"
+  else if (Map.find? d.paymentAddress m.did).isSome ∧ m.did.isKey then some "cannot change payment address of a key did"
+  else if Map.find? d.paymentAddress m.did = some m.acc.addr then some "same payment address"
+  else if !(d.creatorBound m.creator m.did) ∧ !m.did.isKey then some "invalid creator"
+  else if !(m.acc.cosmos ∧ m.acc.chainOk) then some "invalid chain address"
+  else if m.did.isSid then
+    match d.getDid m.acc.raw with
+    | none => some "binding not found"
+    | some stored => if m.did ≠ stored.did then some "inconsistent did" else none
+  else if m.did.isKey then
+    if m.acc.addr ≠ m.creator then some "invalid account id"
+    else if (Map.find? d.kid m.acc.addr).isSome then some "kid exists"
+    else none
+  else some "unsupported did"
+
+def payAddrApply (d : DidState) (m : PayAddrMsg) : DidState :=
+  if m.did.isSid then { d with paymentAddress := Map.set d.paymentAddress m.did m.acc.addr }
+  else { d with paymentAddress := Map.set d.paymentAddress m.did m.acc.addr,
+                kid := Map.set d.kid m.acc.addr m.did }
+
+def didUpdatePaymentAddress (s : State) (m : PayAddrMsg) : TxM State :=
+  match payAddrPre s.did m with
+  | some e => throw e
+  | none => pure { s with did := payAddrApply s.did m }
 
 structure BindingMsg where
   creator : Addr
@@ -64,35 +69,43 @@ structure BindingMsg where
   keys : StrId
   deriving Repr, Inhabited
 
-def didBinding (s : State) (m : BindingMsg) : TxM State := do
-  let d := s.did
-  if !m.didMatchesRoot then throw "inconsistent did"
-  if !m.fresh then throw "out of date"
-  if !m.acc.ok then throw "invalid account id"
-  let accList := Map.find? d.accountList m.did
-  if (accList.getD []).contains m.accountDid then throw "auth exists"
-  if (Map.find? d.accountAuth m.accountDid).isSome then throw "auth exists"
-  let storedAccId := Map.find? d.accountId m.accountDid
-  if let some x := storedAccId then
-    if x ≠ m.acc.raw then throw "invalid account id"
-  if (d.getDid m.acc.raw).isSome then throw "binding exists"
-  if !m.proofOk then throw "invalid binding proof"
-  let d ← (match Map.find? d.sidDocumentVersion m.rootDocId with
-    | some _ =>
-      if !(d.creatorBound m.creator m.did) then throw "invalid creator" else pure d
-    | none => do
-      if !m.docIdOk then throw "inconsistent doc id"
-      if (Map.find? d.sidDocument m.rootDocId).isSome then throw "doc exists"
-      let d := { d with sidDocument := Map.set d.sidDocument m.rootDocId m.keys,
-                        sidDocumentVersion := Map.set d.sidDocumentVersion m.rootDocId [m.rootDocId] }
+/-- the first check of `Binding` that fails, if any -/
+def bindingPre (d : DidState) (m : BindingMsg) : Option String :=
+  if !m.didMatchesRoot then some "inconsistent did"
+  else if !m.fresh then some "out of date"
+  else if !m.acc.ok then some "invalid account id"
+  else if ((Map.find? d.accountList m.did).getD []).contains m.accountDid then some "auth exists"
+  else if (Map.find? d.accountAuth m.accountDid).isSome then some "auth exists"
+  else if ((Map.find? d.accountId m.accountDid).any (· != m.acc.raw)) then some "invalid account id"
+  else if (d.getDid m.acc.raw).isSome then some "binding exists"
+  else if !m.proofOk then some "invalid binding proof"
+  else match Map.find? d.sidDocumentVersion m.rootDocId with
+    | some _ => if !(d.creatorBound m.creator m.did) then some "invalid creator" else none
+    | none =>
+      if !m.docIdOk then some "inconsistent doc id"
+      else if (Map.find? d.sidDocument m.rootDocId).isSome then some "doc exists"
+      else none
+
+def bindingApply (d0 : DidState) (m : BindingMsg) : DidState :=
+  let accList := Map.find? d0.accountList m.did
+  let storedAccId := Map.find? d0.accountId m.accountDid
+  let d := match Map.find? d0.sidDocumentVersion m.rootDocId with
+    | some _ => d0
+    | none =>
+      let d := { d0 with sidDocument := Map.set d0.sidDocument m.rootDocId m.keys,
+                         sidDocumentVersion := Map.set d0.sidDocumentVersion m.rootDocId [m.rootDocId] }
       if m.acc.cosmos ∧ m.acc.chainOk ∧ (Map.find? d.paymentAddress m.did).isNone then
-        pure { d with paymentAddress := Map.set d.paymentAddress m.did m.acc.addr }
-      else pure d : TxM DidState)
+        { d with paymentAddress := Map.set d.paymentAddress m.did m.acc.addr }
+      else d
   let d := { d with accountAuth := Map.set d.accountAuth m.accountDid m.auth,
                     accountList := Map.set d.accountList m.did ((accList.getD []) ++ [m.accountDid]),
                     did := d.did ++ [{ accountId := m.acc.raw, did := m.did, addr := if m.acc.cosmos ∧ m.acc.chainOk then m.acc.addr else 0 }] }
-  let d := if storedAccId.isNone then { d with accountId := Map.set d.accountId m.accountDid m.acc.raw } else d
-  pure { s with did := d }
+  if storedAccId.isNone then { d with accountId := Map.set d.accountId m.accountDid m.acc.raw } else d
+
+def didBinding (s : State) (m : BindingMsg) : TxM State :=
+  match bindingPre s.did m with
+  | some e => throw e
+  | none => pure { s with did := bindingApply s.did m }
 
 structure DidUpdateMsg where
   creator : Addr
@@ -110,38 +123,42 @@ structure DidUpdateMsg where
   removeAcc : List AccId
   deriving Repr, Inhabited
 
-def didUpdate (s : State) (m : DidUpdateMsg) : TxM State := do
-  let d := s.did
-  if !(d.creatorBound m.creator m.did) then throw "invalid creator"
-  if !m.fresh then throw "out of date"
-  if m.remove.length = 0 then throw "no need to update"
-  if m.update.length = 0 then throw "update list empty"
-  let some accList := Map.find? d.accountList m.did | throw "account list not found"
-  if accList.length ≠ m.remove.length + m.update.length then throw "invalid auth count"
-  if !(accList.all (fun a => m.remove.contains a || m.update.any (·.1 = a))) then throw "unhandled account did"
-  let ps := Map.find? d.pastSeeds m.did
-  if (ps.getD []).contains m.pastSeed ∧ ps.isSome then throw "seed exists"
-  let some payAddr := Map.find? d.paymentAddress m.did | throw "pay addr not set"
-  -- check remove accounts
-  let rec chk (l : List Bytes) (acc : List Bytes) : TxM (List Bytes) :=
-    match l with
-    | [] => pure acc
-    | a :: t =>
-      match Map.find? d.accountId a with
-      | none => throw "account id not found"
-      | some accId =>
-        match m.removeAcc.find? (·.raw = accId) with
-        | none => throw "harness did not describe the stored account id"
-        | some c =>
-          if !c.ok then throw "invalid account id"
-          else if c.cosmos ∧ c.chainOk ∧ c.addr = payAddr then throw "cannot unbind payment address"
-          else chk t (acc ++ [accId])
-  let removeAccId ← chk m.remove []
-  if !m.didOk then throw "invalid did"
+/-- the unbinding loop: every removed accountDid has a stored account id, and none of them is the
+    DID's payment account on this chain -/
+def updateChk (m : DidUpdateMsg) (d : DidState) (payAddr : Addr) (l : List Bytes) (acc : List Bytes) : TxM (List Bytes) :=
+  match l with
+  | [] => pure acc
+  | a :: t =>
+    match Map.find? d.accountId a with
+    | none => throw "account id not found"
+    | some accId =>
+      match m.removeAcc.find? (·.raw = accId) with
+      | none => throw "harness did not describe the stored account id"
+      | some c =>
+        if !c.ok then throw "invalid account id"
+        else if c.cosmos ∧ c.chainOk ∧ c.addr = payAddr then throw "cannot unbind payment address"
+        else updateChk m d payAddr t (acc ++ [accId])
+
+def updatePre1 (d : DidState) (m : DidUpdateMsg) (accList : List Bytes) : Option String :=
+  if !(d.creatorBound m.creator m.did) then some "invalid creator"
+  else if !m.fresh then some "out of date"
+  else if m.remove.length = 0 then some "no need to update"
+  else if m.update.length = 0 then some "update list empty"
+  else if accList.length ≠ m.remove.length + m.update.length then some "invalid auth count"
+  else if !(accList.all (fun a => m.remove.contains a || m.update.any (·.1 = a))) then some "unhandled account did"
+  else if ((Map.find? d.pastSeeds m.did).getD []).contains m.pastSeed ∧ (Map.find? d.pastSeeds m.did).isSome then some "seed exists"
+  else none
+
+def updatePre2 (d : DidState) (m : DidUpdateMsg) : Option String :=
+  if !m.didOk then some "invalid did"
+  else if ((Map.find? d.sidDocumentVersion m.rootDocId).getD []).contains m.newDocId then some "doc exists"
+  else if (Map.find? d.sidDocument m.newDocId).isSome then some "doc exists"
+  else if !m.docIdOk then some "inconsistent doc id"
+  else none
+
+def updateApply (d : DidState) (m : DidUpdateMsg) (accList removeAccId : List Bytes) : DidState :=
   let versions := (Map.find? d.sidDocumentVersion m.rootDocId).getD []
-  if versions.contains m.newDocId then throw "doc exists"
-  if (Map.find? d.sidDocument m.newDocId).isSome then throw "doc exists"
-  if !m.docIdOk then throw "inconsistent doc id"
+  let ps := Map.find? d.pastSeeds m.did
   let d := { d with did := d.did.filter (fun x => !removeAccId.contains x.accountId) }
   let d := { d with accountId := m.remove.foldl (fun acc a => Map.erase acc a) d.accountId }
   let d := { d with sidDocument := Map.set d.sidDocument m.newDocId m.keys,
@@ -150,7 +167,21 @@ def didUpdate (s : State) (m : DidUpdateMsg) : TxM State := do
   let d := { d with accountAuth := m.remove.foldl (fun acc a => Map.erase acc a) d.accountAuth }
   let accList' := m.remove.foldl (fun l a => l.erase a) accList
   let d := { d with accountList := Map.set d.accountList m.did accList' }
-  let d := { d with pastSeeds := Map.set d.pastSeeds m.did ((ps.getD []) ++ [m.pastSeed]) }
-  pure { s with did := d }
+  { d with pastSeeds := Map.set d.pastSeeds m.did ((ps.getD []) ++ [m.pastSeed]) }
+
+def didUpdate (s : State) (m : DidUpdateMsg) : TxM State :=
+  match Map.find? s.did.accountList m.did, Map.find? s.did.paymentAddress m.did with
+  | some accList, some payAddr =>
+    match updatePre1 s.did m accList with
+    | some e => throw e
+    | none =>
+      match updateChk m s.did payAddr m.remove [] with
+      | .error e => throw e
+      | .ok removeAccId =>
+        match updatePre2 s.did m with
+        | some e => throw e
+        | none => pure { s with did := updateApply s.did m accList removeAccId }
+  | none, _ => throw "account list not found"
+  | _, none => throw "pay addr not set"
 
 end SaoVerif
